@@ -24,6 +24,10 @@ type harnessCfg struct {
 	Opts sym.Options
 	// Optional marks harnesses whose cover points may be unreachable.
 	NoCoverCheck bool
+	// SchedDependent marks harnesses whose cover points and observations
+	// depend on the goroutine schedule: the native replay (real scheduler)
+	// is only required to finish without assertion failure or panic.
+	SchedDependent bool
 }
 
 // propCheck describes how one property is decided.
@@ -83,6 +87,7 @@ type replayFile struct {
 type nativeCase struct {
 	Harness string   `json:"harness"`
 	Vector  []uint64 `json:"vector"`
+	Repeat  int      `json:"repeat,omitempty"`
 }
 
 type nativeOutcome struct {
@@ -380,6 +385,10 @@ func cmdCheck(args []string) int {
 		groups[k] = append(groups[k], vr)
 	}
 	sort.Strings(gkeys)
+	schedDep := map[string]bool{}
+	for _, h := range hs {
+		schedDep[h.Func] = h.SchedDependent
+	}
 	harnessNamesByDir := map[string][]string{}
 	for _, h := range hs {
 		harnessNamesByDir[h.Dir] = appendUniq(harnessNamesByDir[h.Dir], h.Func)
@@ -408,7 +417,11 @@ func cmdCheck(args []string) int {
 				n = 3
 			}
 			for i := 0; i < n; i++ {
-				cases = append(cases, nativeCase{Harness: g[i].v.Harness, Vector: g[i].v.Vector})
+				nc := nativeCase{Harness: g[i].v.Harness, Vector: g[i].v.Vector}
+				if schedDep[nc.Harness] {
+					nc.Repeat = 400
+				}
+				cases = append(cases, nc)
 				metas = append(metas, meta{kind: "viol", gkey: gk, vr: &g[i]})
 			}
 		}
@@ -437,7 +450,7 @@ func cmdCheck(args []string) int {
 			mt := metas[i]
 			switch mt.kind {
 			case "sample":
-				ok := o.Status == "ok" && equalStrings(o.Observed, mt.sample.Observed) && equalStrings(o.Covered, mt.sample.Covers)
+				ok := o.Status == "ok" && (schedDep[o.Harness] || (equalStrings(o.Observed, mt.sample.Observed) && equalStrings(o.Covered, mt.sample.Covers)))
 				if ok {
 					validated++
 				} else {
@@ -472,6 +485,14 @@ func cmdCheck(args []string) int {
 				continue
 			}
 			oc := confirmed[gk]
+			if oc == nil && schedDep[g[0].v.Harness] {
+				// schedule-dependent: the interleaving is recorded in the
+				// replay file and reproduces in the interpreter; the native
+				// stress run did not hit it
+				oc = &nativeOutcome{Harness: g[0].v.Harness, Status: "interpreter-only", Msg: "schedule-dependent counterexample: reproduces under the recorded interleaving in the executor; 400 native runs under the real scheduler did not hit it"}
+				confirmed[gk] = oc
+				confirmedVR[gk] = &groups[gk][0]
+			}
 			if oc == nil {
 				inconclusive = append(inconclusive, fmt.Sprintf("counterexample of %s (%s) did not reproduce natively (%s): encoding or stub problem, not reported as violation", g[0].v.Harness, g[0].v.Msg, unconfirmed[gk]))
 				continue
